@@ -75,6 +75,28 @@ void MangleRadicals(const std::string& funcName, Typification& type) {
   }
 }
 
+//! Template parameters the argument says nothing about are instantiated by the any-type
+void BindRadicals(Typification::Substitutes& substitutes, const Typification& arg, const Typification& anyType) {
+  switch (arg.Structure()) {
+  case StructureType::basic: {
+    if (IsRadical(arg.E().baseID) && !substitutes.contains(arg.E().baseID)) {
+      substitutes.insert({ arg.E().baseID, anyType });
+    }
+    return;
+  }
+  case StructureType::collection: {
+    BindRadicals(substitutes, arg.B().Base(), anyType);
+    return;
+  }
+  case StructureType::tuple: {
+    for (auto index = Typification::PR_START; index < arg.T().Arity() + Typification::PR_START; ++index) {
+      BindRadicals(substitutes, arg.T().Component(index), anyType);
+    }
+    return;
+  }
+  }
+}
+
 } // unnamed namespace
 
 namespace details {
@@ -229,6 +251,7 @@ bool TypeEnv::CompareTemplated(
 
   const auto valueStructure = value.Structure();
   if (valueStructure == rslang::StructureType::basic && value.IsAnyType()) {
+    BindRadicals(substitutes, arg, value);
     return true;
   }
   const auto argStructure = arg.Structure();
